@@ -1004,6 +1004,38 @@ func (s *Server) handleDecline(req *dhcpv4.DHCPv4) {
 		if pool := s.poolMgr.GetPool(lease.PoolID); pool != nil {
 			pool.MarkUnavailable(declinedIP)
 		}
+
+		// The lease is gone: the fast path must stop answering for it
+		if len(lease.CircuitID) > 0 {
+			cidKey := hex.EncodeToString(lease.CircuitID)
+			s.leasesByCircuitIDMu.Lock()
+			delete(s.leasesByCircuitID, cidKey)
+			s.leasesByCircuitIDMu.Unlock()
+		}
+		s.removeFromFastPath(mac, lease)
+	}
+}
+
+// removeFromFastPath deletes every fast path cache entry that answers for a
+// lease: by MAC, by VLAN pair and by circuit-id (hash and fixed-key maps).
+func (s *Server) removeFromFastPath(mac net.HardwareAddr, lease *Lease) {
+	if s.loader == nil || lease == nil {
+		return
+	}
+	if err := s.loader.RemoveSubscriber(ebpf.MACToUint64(mac)); err != nil {
+		s.logger.Debug("Fast path MAC entry not removed",
+			zap.String("mac", mac.String()),
+			zap.Error(err),
+		)
+	}
+	if (lease.STag > 0 || lease.CTag > 0) && s.loader.HasVLANSupport() {
+		s.loader.RemoveVLANSubscriber(lease.STag, lease.CTag)
+	}
+	if len(lease.CircuitID) > 0 {
+		s.loader.RemoveCircuitIDMapping(lease.CircuitID)
+		if s.loader.HasCircuitIDSubscriberSupport() {
+			s.loader.RemoveCircuitIDSubscriber(lease.CircuitID)
+		}
 	}
 }
 
@@ -1146,12 +1178,11 @@ func (s *Server) cleanupExpiredLeases() {
 			pool.Release(lease.IP)
 		}
 
-		// Remove from fast path cache
+		// Remove from fast path cache (MAC, VLAN pair and circuit-id entries)
 		if s.loader != nil {
 			hwAddr, _ := net.ParseMAC(mac)
 			if hwAddr != nil {
-				macU64 := ebpf.MACToUint64(hwAddr)
-				s.loader.RemoveSubscriber(macU64)
+				s.removeFromFastPath(hwAddr, lease)
 			}
 		}
 	}
